@@ -635,6 +635,41 @@ func genC14(tier string, n int, seed int64) {
 			}
 		}
 	}
+	// ---- keys made of / containing every character that is an operator or a delimiter INSIDE scripts, as child keys of @- and
+	// $-rooted operand paths on both sides of every operator (Equation, Script and Filter String()). The element holds the key,
+	// the neighbouring key "col" and "1", so that a mis-parse such as @.col-1 -> @.col - 1 also evaluates differently.
+	opChars := []struct{ n, c string }{{"minus", "-"}, {"plus", "+"}, {"star", "*"}, {"slash", "/"}, {"lt", "<"}, {"gt", ">"}, {"eq", "="}, {"bang", "!"},
+		{"amp", "&"}, {"pipe", "|"}, {"tilde", "~"}, {"lparen", "("}, {"rparen", ")"}, {"lbracket", "["}, {"rbracket", "]"}, {"comma", ","}, {"space", " "},
+		{"at", "@"}, {"dollar", "$"}, {"dot", "."}, {"question", "?"}, {"colon", ":"}, {"quote", "'"}, {"dquote", "\""}, {"backslash", "\\"}}
+	allOps := []string{"==", "!=", "<", ">", "<=", ">=", "&&", "||", "+", "-", "*", "/", "in", "empty", "has", "exists", "=~"}
+	for _, oc := range opChars {
+		for _, kp := range []struct{ pos, key string }{{"middle", "col" + oc.c + "1"}, {"start", oc.c + "col"}, {"end", "col" + oc.c}} {
+			elem := absOf(map[string]any{kp.key: int64(10), "col": int64(2), "1": int64(1)})
+			for _, o := range allOps {
+				if tier == "quick" && kp.pos != "middle" && o != "==" && o != "-" {
+					continue
+				}
+				other := leafFor(o, 0, 2)
+				switch o {
+				case "in":
+					other = &AST{Op: "const", V: absOf([]any{int64(10), int64(1)})}
+				case "=~":
+					other = &AST{Op: "const", V: absOf("1")}
+				}
+				for _, root := range []string{"@", "$"} {
+					pk := &AST{Op: "path", Root: root, Fr: []Frag{{F: "child", K: ints(kp.key)}}}
+					cell := "opkey(" + oc.n + "," + kp.pos + ") root=" + root + " op=" + o
+					emit(&c14case{K: "eq", Cell: cell + " side=left", Ast: &AST{Op: o, L: pk, R: other}, Elem: elem})
+					if o != "in" && o != "=~" && o != "has" && o != "exists" && o != "empty" {
+						emit(&c14case{K: "eq", Cell: cell + " side=right", Ast: &AST{Op: o, L: other, R: pk}, Elem: elem})
+					}
+				}
+			}
+			// deeper in the path and inside a nested filter
+			emit(&c14case{K: "eq", Cell: "opkey(" + oc.n + "," + kp.pos + ") nested", Elem: absOf(map[string]any{"a": map[string]any{kp.key: int64(10), "col": int64(2)}}),
+				Ast: &AST{Op: ">", L: &AST{Op: "path", Root: "@", Fr: []Frag{{F: "child", K: ints("a")}, {F: "child", K: ints(kp.key)}}}, R: ival(2)}})
+		}
+	}
 	// arithmetic that differs between int64 and float64: a float constant must come back as a float
 	for _, fc := range []float64{2.0, 4e6, 1e15, 9007199254740992.0, 4611686018427387904.0} {
 		emit(&c14case{K: "eq", Cell: fmt.Sprintf("const(flt %v) division", fc), Elem: absOf(int64(fc / 2)),
